@@ -344,6 +344,46 @@ def load_known():
 
 def match_known(known, pid, key):
     for k in known:
-        if k.get("property") == pid and k.get("status") == "known" and k.get("key") == key:
+        if k.get("property") == pid and k.get("status") == "known" and (
+                k.get("key") == key or (k.get("key", "").endswith("|") and key.startswith(k["key"]))):
             return k
     return None
+
+
+def isolated(fn, *args, timeout=60):
+    """Run fn(*args) in a forked child so that a crash (abort, segfault) or hang of the real code is a result,
+    not the end of the check.  -> ('ok', value) | ('crash', exitcode) | ('timeout', None) | ('error', text)"""
+    import multiprocessing as mp
+    mpc = mp.get_context("fork")
+    parent, child = mpc.Pipe(duplex=False)
+
+    def target():
+        try:
+            val = ("ok", fn(*args))
+        except BaseException as e:  # noqa: BLE001
+            import traceback
+            val = ("error", "%s: %s\n%s" % (type(e).__name__, e, traceback.format_exc()[-1500:]))
+        try:
+            child.send(val)
+        finally:
+            child.close()
+            os._exit(0)
+
+    p = mpc.Process(target=target)
+    p.start()
+    child.close()
+    val = None
+    if parent.poll(timeout):
+        try:
+            val = parent.recv()
+        except EOFError:
+            val = None
+    p.join(5 if val is not None else 0.1)
+    if p.is_alive():
+        p.kill()
+        p.join()
+        if val is None:
+            return ("timeout", None)
+    if val is None:
+        return ("crash", p.exitcode)
+    return val
